@@ -694,20 +694,21 @@ impl<'l> ArmInstr<'l>
 			Instruction::Adr{dst, off} =>
 			{
 				convert!(({*dst}: Register) (tgt: Offset));
-				let al_pc = (self.addr & !0b11).wrapping_add(4);
-				if tgt < al_pc || tgt - al_pc > 0xFF << 2
+				let al_pc = i64::from(self.addr & !0b11) + 4;
+				let off_val = i64::from(tgt) - al_pc;
+				if off_val < 0 || off_val > 0xFF << 2
 				{
-					self.push_error(ctx, ConstantError::Range{min: 0, max: 0xFF << 2, have: tgt as i64 - al_pc as i64});
+					self.push_error(ctx, ConstantError::Range{min: 0, max: 0xFF << 2, have: off_val});
 					return Err(ErrorLevel::Trivial);
 				}
-				else if ((tgt - al_pc) & 0b11) != 0
+				else if (off_val & 0b11) != 0
 				{
-					self.push_error(ctx, ConstantError::Alignment{align: 0b100, have: (tgt - al_pc) as i64});
+					self.push_error(ctx, ConstantError::Alignment{align: 0b100, have: off_val});
 					return Err(ErrorLevel::Trivial);
 				}
 				else
 				{
-					*off = (tgt - al_pc) as u16;
+					*off = off_val as u16;
 				}
 			},
 			Instruction::And{dst, rhs} => {convert!(({*dst}: Register) ({*rhs}: Register));},
@@ -715,8 +716,8 @@ impl<'l> ArmInstr<'l>
 			&mut Instruction::B{cond, ref mut off} =>
 			{
 				convert!((tgt: Offset));
-				let pc = self.addr.wrapping_add(4);
-				let off_val = i64::from(tgt) - i64::from(pc);
+				let pc = i64::from(self.addr) + 4;
+				let off_val = i64::from(tgt) - pc;
 				let (min, max) = if cond == Condition::Always{(-0b10000000000_0, 0b01111111111_0)} else {(-0b10000000_0, 0b01111111_0)};
 				if off_val < min || off_val > max
 				{
@@ -750,8 +751,8 @@ impl<'l> ArmInstr<'l>
 			Instruction::Bl{off} =>
 			{
 				convert!((tgt: Offset));
-				let pc = self.addr.wrapping_add(4);
-				let off_val = i64::from(tgt) - i64::from(pc);
+				let pc = i64::from(self.addr) + 4;
+				let off_val = i64::from(tgt) - pc;
 				let (min, max) = (-1 << 24, (1 << 24) - 1);
 				if off_val < min || off_val > max
 				{
@@ -800,21 +801,22 @@ impl<'l> ArmInstr<'l>
 					AddrOffset::Address(a_addr, a_off) => {(*addr, *off) = (a_addr, a_off.unwrap_or(ImmReg::Immediate(0)));},
 					AddrOffset::Offset(tgt) =>
 					{
-						let al_pc = (self.addr & !0b11).wrapping_add(4);
-						if tgt < al_pc || tgt - al_pc > 0xFF << 2
+						let al_pc = i64::from(self.addr & !0b11) + 4;
+						let off_val = i64::from(tgt) - al_pc;
+						if off_val < 0 || off_val > 0xFF << 2
 						{
-							self.push_error(ctx, ConstantError::Range{min: 0, max: 0xFF << 2, have: tgt as i64 - al_pc as i64});
+							self.push_error(ctx, ConstantError::Range{min: 0, max: 0xFF << 2, have: off_val});
 							return Err(ErrorLevel::Trivial);
 						}
-						else if ((tgt - al_pc) & 0b11) != 0
+						else if (off_val & 0b11) != 0
 						{
-							self.push_error(ctx, ConstantError::Alignment{align: 0b100, have: (tgt - al_pc) as i64});
+							self.push_error(ctx, ConstantError::Alignment{align: 0b100, have: off_val});
 							return Err(ErrorLevel::Trivial);
 						}
 						else
 						{
 							*addr = Register::PC;
-							*off = ImmReg::Immediate((tgt - al_pc) as i32);
+							*off = ImmReg::Immediate(off_val as i32);
 						}
 					},
 				}
